@@ -34,8 +34,14 @@ def pack_contract(E, args, kwargs):
     rows = t.shape[0] if t.shape else 1
     vpi = 8 // bits
     prow = E.floordiv(E.binop("Add", rows, vpi - 1), vpi)
-    payload = new_input(E, E.fresh_name("payload").replace("#", "_"), "uint8", [prow] + list(t.shape[1:]), device=t.device)
-    payload.fresh = True
+    src = t.attrs.get("unpacked_from")
+    if src is not None and src[1] == bits:
+        # pack is a function of the codes: packing the codes just unpacked from payload P gives P again
+        # (pack(unpack(pack(T))) == pack(T) follows from unpack(pack(T)) == T, C04)
+        payload = STensor("uint8", [prow] + list(t.shape[1:]), src[0].snap(), device=t.device, fresh=True)
+    else:
+        payload = new_input(E, E.fresh_name("payload").replace("#", "_"), "uint8", [prow] + list(t.shape[1:]), device=t.device)
+        payload.fresh = True
     o = make_wrapper_subclass(E, cls, tuple(t.shape), strides=None, dtype=E.ext_modules["torch"].entries["uint8"], device=t.device)
     o.fields["_bits"] = bits
     o.fields["_data"] = payload
@@ -57,7 +63,20 @@ def unpack_contract(E, args, kwargs):
         from qvc.sym import Unsupported
 
         raise Unsupported("PackedTensor without abstract view (not built through the pack contract)")
-    return STensor("uint8", list(p.fields["_w_size"]), g.snap(), device=g.device, fresh=True)
+    bits = p.fields.get("_bits")
+    gf = g.snap()
+
+    def elem(idx):
+        v = gf(idx)
+        if isinstance(bits, int):
+            # UNPACK masks every value to `bits` bits (C04 specification of the unpack kernels)
+            E.alg.side.append(("fact", z3.And(v >= 0, v < (1 << bits)) if E.alg.intmode == "int" else z3.ULT(v, 1 << bits)))
+        return v
+
+    out = STensor("uint8", list(p.fields["_w_size"]), elem, device=g.device, fresh=True)
+    if isinstance(p.fields.get("_data"), STensor):
+        out.attrs["unpacked_from"] = (p.fields["_data"], bits)
+    return out
 
 
 def install(E):
